@@ -383,6 +383,13 @@ func (s *stream) closeAllStreams() {
 					"cannot close stream on (stream end not supporting) mode, vbID: %d, err: %v",
 					vbID, err,
 				)
+
+				// No stream end follows a close that failed (e.g. the stream had already ended on its own):
+				// take the token back, otherwise the next vBucket's token can never be queued.
+				select {
+				case <-s.streamEndNotSupportedData.queue:
+				default:
+				}
 			}
 		}
 		s.streamEndNotSupportedData.ending = false
